@@ -196,11 +196,174 @@ def inv_facts(f, x):
     return [card_axioms(sel(f["tagm"], x)), card_axioms(sel(f["indm"], x)), card_axioms(EMPTY)]
 
 
+# ---- oset / dict objects ------------------------------------------------------------------------
+# an oset is a heap object Ref("oset") with field d -> Ref("dict") with field keys : SET (membership view of the dict
+# whose values are all None).  ``self._d`` evaluates to DH(dict ref); python ``set`` values are immutable PySetV.
+
+E = z3.Int("e!elem")  # the arbitrary element
+OSET_CLASS = "<class oset>"
+OSET_METHODS = {}  # method name -> contract target (filled below)
+
+
+class DH:
+    """the value of ``o._d``: a reference to a dict heap object"""
+
+    def __init__(self, ref):
+        self.ref = ref
+
+
+class PySetV:
+    """an (immutable use of a) python set value"""
+
+    def __init__(self, arr):
+        self.arr = arr
+
+
+def new_dict(cx, keys):
+    return cx.new_obj("dict", keys=keys)
+
+
+def new_oset(cx, name=None, keys=None):
+    keys = keys if keys is not None else cx.Array(f"S_{name}", INT, BOOL)
+    return cx.new_obj("oset", d=new_dict(cx, keys))
+
+
+def okeys(cx, o, pre=False):
+    h = cx.pre_heap if pre else cx.heap
+    return h[h[o.oid]["d"].oid]["keys"]
+
+
+def is_oset(v):
+    return isinstance(v, Ref) and v.kind == "oset"
+
+
+def content(cx, o, pre=False):
+    """membership array of an oset object or of an iterable of keys"""
+    if is_oset(o):
+        return okeys(cx, o, pre)
+    if isinstance(o, KSeq):
+        e = z3.Int("e!bound")
+        return z3.Lambda([e], seen(o.sid, e, o.length))
+    raise Unsupported(f"content of {o!r}")
+
+
+iter_of = z3.Function("iter_of", SET, INT)  # id of the sequence in which a set's members are enumerated
+
+
+def oset_iter(cx, o, keys_at=()):
+    """LEAF (trusted): iterating an oset enumerates exactly its members, each once.  Instances at the given keys."""
+    S = okeys(cx, o)
+    sid = iter_of(S)
+    n = card(S)
+    s = KSeq(sid, n)
+    cx.assume(And(card_axioms(S), slen(sid) == n, NoDup(sid), Implies(And(0 <= J, J < n), sel(S, seq_at(sid, J)))))
+    for k in keys_at:
+        cx.assume(And(seen(sid, k, n) == sel(S, k), count(sid, k, n) == If(sel(S, k), 1, 0), Not(seen(sid, k, 0)),
+                      count(sid, k, 0) == 0))
+    return s
+
+
+def oset_attr(con, cx, base, attr, node):
+    if is_oset(base) and attr == "_d":
+        d = cx.fields(base)["d"]
+        if d is None:
+            raise PyRaise("AttributeError", getattr(node, "lineno", 0))
+        return DH(d)
+    if isinstance(base, KSeq) and attr == "_d":
+        raise PyRaise("AttributeError", getattr(node, "lineno", 0))  # a plain iterable has no _d
+    if base is None and attr == "oset":
+        return OSET_CLASS
+    return NotImplemented
+
+
+def oset_dictcomp(con, cx, n):
+    """{k: None for k in <dict> if <filter(k)>}: set-builder model -- the filter is evaluated once at a fresh symbolic
+    element e and the result is the dict with keys  { e | e in <dict> and filter(e) }  (z3 lambda)"""
+    if len(n.generators) != 1:
+        return NotImplemented
+    g = n.generators[0]
+    src = cx.ev(g.iter)
+    if not isinstance(src, DH):
+        return NotImplemented
+    e = z3.Int(cx._name("k!elem"))
+    saved = dict(cx.env)
+    cx.assign(g.target, e)
+    conds = []
+    for c in g.ifs:
+        t = cx.truth(cx.ev(c))
+        conds.append(t)
+    key, val = cx.ev(n.key), cx.ev(n.value)
+    cx.env = saved
+    if key is not e or val is not None:
+        raise Unsupported("dict comprehension that is not a key filter")
+    body = And(sel(cx.fields(src.ref)["keys"], e), *conds)
+    return DH(new_dict(cx, z3.Lambda([e], Z(body))))
+
+
+def oset_call(con, cx, name, args, kwargs, node):
+    line = getattr(node, "lineno", 0)
+    a0 = args[0] if args else None
+    if name == "__setattr__" and is_oset(a0) and args[1] == "_d":
+        if not isinstance(args[2], DH):
+            raise Unsupported("_d set to a non-dict")
+        cx.fields(a0)["d"] = args[2].ref
+        return True
+    if isinstance(a0, DH):
+        f = cx.fields(a0.ref)
+        if name == "__setitem__" and args[2] is None:
+            f["keys"] = add1(f["keys"], args[1])
+            return True
+        if name == ".pop" and len(args) == 3:
+            f["keys"] = del1(f["keys"], args[1])
+            return None  # every value of the dict is None, and so is the default the code passes
+        if name == "__delitem__":
+            if not cx.decide(sel(f["keys"], args[1]), line):
+                raise PyRaise("KeyError", line)
+            f["keys"] = del1(f["keys"], args[1])
+            return True
+        if name == ".clear":
+            f["keys"] = EMPTY
+            return None
+        if name == ".update" and len(args) == 2 and isinstance(args[1], DH):
+            f["keys"] = z3.SetUnion(f["keys"], cx.fields(args[1].ref)["keys"])
+            return None
+        if name == ".copy":
+            return DH(new_dict(cx, f["keys"]))
+        if name == ".__len__":
+            cx.assume(card_axioms(f["keys"]))
+            return card(f["keys"])
+        if name in (".__contains__", "__contains__"):
+            return sel(f["keys"], args[1])
+        if name == "__eq__" and isinstance(args[1], DH):
+            return f["keys"] == cx.fields(args[1].ref)["keys"]  # all values None: dict equality = key-set equality
+        if name == "set":
+            return PySetV(f["keys"])
+    if name == "__contains__" and isinstance(a0, PySetV):
+        return sel(a0.arr, args[1])
+    if name in ("set.intersection", "set.union") and args and all(isinstance(x, PySetV) for x in args):
+        r = args[0].arr
+        for x in args[1:]:
+            r = (z3.SetIntersect if name == "set.intersection" else z3.SetUnion)(r, x.arr)
+        return PySetV(r)
+    if name == "__isinstance__" and args[1] == "oset":
+        return is_oset(a0)
+    if name == "object.__new__" and a0 == OSET_CLASS:
+        return cx.new_obj("oset", d=None)
+    if name in ("oset._from_dict", "oset.from_dict"):
+        return cx.call_contract(REGISTRY[f"{UT}::{name}"], args, kwargs, node, recv=OSET_CLASS)
+    if name.startswith(".") and is_oset(a0) and name[1:] in OSET_METHODS:
+        return cx.call_contract(REGISTRY[OSET_METHODS[name[1:]]], args[1:], kwargs, node, recv=a0)
+    if name == "__binop__" and is_oset(args[1]) and args[0] in ("Sub", "BitOr", "BitAnd"):
+        m = {"Sub": "__sub__", "BitOr": "__or__", "BitAnd": "__and__"}[args[0]]
+        return cx.call_contract(REGISTRY[OSET_METHODS[m]], [args[2]], {}, node, recv=args[1])
+    return NotImplemented
+
+
 class Base(Contract):
     """shared modelling of network objects, tensors, key sequences and oset values"""
 
     property_ids = (PID,)
-    ghost_fields = MAPF
+    ghost_fields = MAPF + ("keys",)
     safety = False
     drops = "decorators, docstring, annotations"
     methods = {}  # TensorNetwork method name -> contract target (filled at the end of the module)
@@ -253,11 +416,17 @@ class Base(Contract):
                 return FSet(base, attr[1:6])
         if isinstance(base, TensorV) and attr in ("tags", "inds"):
             return getattr(base, attr)
-        return NotImplemented
+        return oset_attr(self, cx, base, attr, node)
+
+    def on_dictcomp(self, cx, n):
+        return oset_dictcomp(self, cx, n)
 
     # -- calls
     def call(self, cx, name, args, kwargs, node):
         line = getattr(node, "lineno", 0)
+        r = oset_call(self, cx, name, args, kwargs, node)
+        if r is not NotImplemented:
+            return r
         if name == "__contains__" and isinstance(args[0], MapH):
             h, x = args
             return sel(cx.fields(h.ref)["tdom" if h.w == "tensor" else h.w + "d"], x)
@@ -800,7 +969,7 @@ class PopTensor(Base):
     disappear, labels re-classified, INV preserved; KeyError (nothing changed) iff tid is not in tensor_map"""
 
     target = f"{TNC}.pop_tensor"
-    floor = 30
+    floor = 20
 
     def inputs(self, cx, case):
         return {"self": new_tn(cx), "tid_or_tags": cx.Int("tid"), "which": "all", "_cx": cx}
@@ -845,3 +1014,350 @@ class PopTensor(Base):
 Base.methods = {"_link_tags": LinkTags.target, "_unlink_tags": UnlinkTags.target, "_link_inds": LinkInds.target,
                 "_unlink_inds": UnlinkInds.target, "_next_tid": NextTid.target,
                 "_reset_inner_outer": ResetInnerOuter.target}
+
+
+# ================================================================================================
+# quimb/utils.py::oset against set algebra (membership view)
+# ================================================================================================
+
+
+def U(*xs):
+    r = xs[0]
+    for x in xs[1:]:
+        r = z3.SetUnion(r, x)
+    return r
+
+
+def Isect(*xs):
+    r = xs[0]
+    for x in xs[1:]:
+        r = z3.SetIntersect(r, x)
+    return r
+
+
+class OsetOp(Base):
+    """one oset method.  mode: 'new' (returns a new oset, receiver and arguments untouched), 'inplace' (modifies the
+    receiver; returns None or, for the __iXX__ forms, the receiver), 'query' (returns a value, nothing modified)"""
+
+    mode = "new"
+    returns_self = False
+    variants = ("1",)  # kinds of `others`: "0", "1", "2", "3", "alias" (the receiver itself), "iter", "oset+iter"
+    floor = 3
+    param = "others"  # name of the vararg (or of the single `other`)
+
+    def cases(self):
+        return [NS(name=f"others={v}", v=v) for v in self.variants]
+
+    def mk_others(self, cx, case, me):
+        v = case.v
+        if v == "alias":
+            return (me,)
+        if v == "iter":
+            n = cx.Int("n_it")
+            cx.assume(n >= 0)
+            return (KSeq(z3.Int("s!it"), n),)
+        if v == "oset+iter":
+            n = cx.Int("n_it")
+            cx.assume(n >= 0)
+            return (new_oset(cx, "o1"), KSeq(z3.Int("s!it"), n))
+        return tuple(new_oset(cx, f"o{k + 1}") for k in range(int(v)))
+
+    def inputs(self, cx, case):
+        me = new_oset(cx, "self")
+        oth = self.mk_others(cx, case, me)
+        d = {"self": me, "_cx": cx}
+        d[self.param] = oth if self.param == "others" else oth[0]
+        return d
+
+    def others(self, a):
+        o = a[self.param]
+        return tuple(o) if self.param == "others" else (o,)
+
+    def case_of_call(self, cx, a):
+        return NS(name="call", v="call")
+
+    def spec(self, S, O, a):
+        """expected content (of the result for 'new', of the receiver afterwards for 'inplace')"""
+        raise NotImplementedError
+
+    def ins(self, cx, a):
+        return [o for o in (a.self,) + self.others(a) if is_oset(o)]
+
+    def ensures(self, a, r, cx, case):
+        S = okeys(cx, a.self, pre=True)
+        O = [content(cx, o, pre=True) for o in self.others(a)]
+        exp = self.spec(S, O, a)
+        d = {}
+        touched = set()
+        if self.mode == "new":
+            if not is_oset(r):
+                return {"returns-oset": False}
+            old_osets = {o.oid for o in self.ins(cx, a)}
+            old_dicts = {cx.pre(o)["d"].oid for o in self.ins(cx, a)}
+            d["result-is-a-new-object"] = r.oid not in old_osets and cx.fields(r)["d"] is not None and \
+                cx.fields(r)["d"].oid not in old_dicts
+            if d["result-is-a-new-object"]:
+                d["content-at-arbitrary-element"] = sel(okeys(cx, r), E) == sel(exp, E)
+                d["content"] = okeys(cx, r) == exp
+        else:
+            d["returns-receiver" if self.returns_self else "returns-None"] = (r == a.self) if self.returns_self else (r is None)
+            d["content-at-arbitrary-element"] = sel(okeys(cx, a.self), E) == sel(exp, E)
+            d["content"] = okeys(cx, a.self) == exp
+            touched = {a.self.oid}
+        # frame: every other input object keeps its dict object and that dict its keys
+        fr = []
+        for o in self.ins(cx, a):
+            if o.oid in touched:
+                continue
+            same_dict = cx.fields(o)["d"] is not None and cx.fields(o)["d"].oid == cx.pre(o)["d"].oid
+            fr.append(same_dict)
+            if same_dict:
+                fr.append(okeys(cx, o) == okeys(cx, o, pre=True))
+        d["frame-receiver-and-arguments-untouched" if self.mode == "new" else "frame-arguments-untouched"] = And(*fr)
+        if any(isinstance(o, KSeq) for o in self.others(a)):
+            d.pop("content")  # iterables of symbolic length: stated at the arbitrary element only
+        return d
+
+    def apply(self, cx, a, node, case=None):
+        """call-site use: the specification applied constructively (it is what `ensures` states and the body proves)"""
+        a.__dict__["_cx"] = cx
+        name = self.target.split("::")[-1]
+        for lab, c in self.pre(cx, a, case).items():
+            cx.oblige(f"call-pre@{node.lineno}:{name}:{lab}", "call-pre", c, node.lineno)
+        saved = cx.pre_heap
+        cx.pre_heap = cx.heap
+        try:
+            S = okeys(cx, a.self, pre=True)
+            O = [content(cx, o, pre=True) for o in self.others(a)]
+            exp = self.spec(S, O, a)
+        finally:
+            cx.pre_heap = saved
+        if self.mode == "new":
+            return new_oset(cx, keys=exp)
+        cx.fields(cx.fields(a.self)["d"])["keys"] = exp
+        return a.self if self.returns_self else None
+
+
+def oset_op(name, mode, spec, variants=("1",), param="others", returns_self=False, floor=3, doc=""):
+    cls = type("Oset_" + name, (OsetOp,), dict(target=f"{UT}::oset.{name}", mode=mode, variants=variants, param=param,
+                                                returns_self=returns_self, floor=floor, __doc__=doc,
+                                                spec=lambda self, S, O, a: spec(S, O, a)))
+    register(cls)
+    OSET_METHODS[name] = cls.target
+    return cls
+
+
+def _loop_update(self):
+    """update(*others): loop 0 (`for o in others`, fixed arity) is unrolled; loop 1 (`for k in o`, an iterable of
+    symbolic length) keeps: receiver content at E = content before the loop or E among the first i items"""
+    def inv(v):
+        cx = v.cx
+        a = v.old
+        me = a.self
+        S0 = cx.old_heap[cx.old_heap[me.oid]["d"].oid]["keys"]
+        base = S0
+        for o in a.others:
+            if o is v.o:
+                break
+            base = z3.SetUnion(base, cx.old_heap[cx.old_heap[o.oid]["d"].oid]["keys"])
+        d = {"same-dict-object": cx.fields(me)["d"].oid == cx.old_heap[me.oid]["d"].oid,
+             "content-at-arbitrary-element": sel(okeys(cx, me), E) == Or(sel(base, E), seen(v.o.sid, E, v._it1))}
+        fr = [okeys(cx, o) == cx.old_heap[cx.old_heap[o.oid]["d"].oid]["keys"] for o in a.others if is_oset(o) and o != me]
+        d["frame-arguments-untouched"] = And(*fr)
+        return d
+
+    def facts(v):
+        return def_seen(v.o.sid, E, v._it1)
+    return {1: Loop("for k in o", inv, facts=facts)}
+
+
+Oset_add = oset_op("add", "inplace", lambda S, O, a: add1(S, a.k), variants=("0",), param="k")
+Oset_discard = oset_op("discard", "inplace", lambda S, O, a: del1(S, a.k), variants=("0",), param="k")
+Oset_clear = oset_op("clear", "inplace", lambda S, O, a: EMPTY, variants=("0",))
+Oset_update = oset_op("update", "inplace", lambda S, O, a: U(S, *O), variants=("0", "1", "2", "alias", "iter", "oset+iter"))
+Oset_update.loops = property(_loop_update)
+Oset_union = oset_op("union", "new", lambda S, O, a: U(S, *O), variants=("0", "1", "2", "alias", "iter"))
+Oset_intersection_update = oset_op("intersection_update", "inplace", lambda S, O, a: Isect(S, *O),
+                                   variants=("1", "2", "3", "alias"))
+Oset_intersection = oset_op("intersection", "new", lambda S, O, a: Isect(S, *O), variants=("0", "1", "2", "3", "alias"))
+Oset_difference_update = oset_op("difference_update", "inplace", lambda S, O, a: z3.SetDifference(S, U(*O)),
+                                 variants=("1", "2", "3", "alias"))
+Oset_difference = oset_op("difference", "new", lambda S, O, a: z3.SetDifference(S, U(*O)), variants=("1", "2", "3", "alias"))
+Oset_copy = oset_op("copy", "new", lambda S, O, a: S, variants=("0",))
+Oset_or = oset_op("__or__", "new", lambda S, O, a: U(S, *O), variants=("1", "alias"), param="other")
+Oset_ior = oset_op("__ior__", "inplace", lambda S, O, a: U(S, *O), variants=("1", "alias"), param="other", returns_self=True)
+Oset_and = oset_op("__and__", "new", lambda S, O, a: Isect(S, *O), variants=("1", "alias"), param="other")
+Oset_iand = oset_op("__iand__", "inplace", lambda S, O, a: Isect(S, *O), variants=("1", "alias"), param="other",
+                    returns_self=True)
+Oset_sub = oset_op("__sub__", "new", lambda S, O, a: z3.SetDifference(S, U(*O)), variants=("1", "alias"), param="other")
+Oset_isub = oset_op("__isub__", "inplace", lambda S, O, a: z3.SetDifference(S, U(*O)), variants=("1", "alias"),
+                    param="other", returns_self=True)
+
+
+def _k_inputs(self, cx, case):
+    return {"self": new_oset(cx, "self"), "k": cx.Int("k"), "_cx": cx}
+
+
+def _no_others(self, a):
+    return ()
+
+
+for _c in (Oset_add, Oset_discard):
+    _c.inputs = _k_inputs
+    _c.others = _no_others
+
+
+@register
+class OsetRemove(OsetOp):
+    """remove(k): KeyError (nothing changed) iff k is absent, else k leaves the set"""
+
+    target = f"{UT}::oset.remove"
+    mode = "inplace"
+    variants = ("0",)
+    floor = 4
+    inputs = _k_inputs
+    others = _no_others
+
+    def spec(self, S, O, a):
+        return del1(S, a.k)
+
+    def ensures(self, a, r, cx, case):
+        d = super().ensures(a, r, cx, case)
+        d["k-was-present"] = sel(okeys(cx, a.self, pre=True), a.k)
+        return d
+
+    def ensures_raise(self, a, exc, cx, case):
+        if exc != "KeyError":
+            return {f"no-raise-{exc}": False}
+        return {"KeyError-only-if-absent": Not(sel(okeys(cx, a.self, pre=True), a.k)),
+                "nothing-changed": And(cx.fields(a.self)["d"].oid == cx.pre(a.self)["d"].oid,
+                                       okeys(cx, a.self) == okeys(cx, a.self, pre=True))}
+
+    def apply(self, cx, a, node, case=None):
+        if not cx.decide(sel(okeys(cx, a.self), a.k), node.lineno):
+            raise PyRaise("KeyError", node.lineno)
+        return super().apply(cx, a, node, case)
+
+
+OSET_METHODS["remove"] = OsetRemove.target
+
+
+class OsetQuery(OsetOp):
+    mode = "query"
+
+    def value(self, cx, a, S, O):
+        raise NotImplementedError
+
+    def ensures(self, a, r, cx, case):
+        S = okeys(cx, a.self, pre=True)
+        fr = [And(cx.fields(o)["d"].oid == cx.pre(o)["d"].oid, okeys(cx, o) == okeys(cx, o, pre=True))
+              for o in self.ins(cx, a)]
+        d = dict(self.value_ok(cx, a, r, S))
+        d["frame-nothing-modified"] = And(*fr)
+        return d
+
+    def apply(self, cx, a, node, case=None):
+        return self.value_of(cx, a, okeys(cx, a.self))
+
+
+@register
+class OsetEq(OsetQuery):
+    """__eq__(other): True iff other is an oset with the same members (order is NOT compared: dict equality)"""
+
+    target = f"{UT}::oset.__eq__"
+    variants = ("1", "alias", "non-oset")
+    param = "other"
+
+    def mk_others(self, cx, case, me):
+        if case.v == "non-oset":
+            return (cx.Opaque("other"),)
+        return super().mk_others(cx, case, me)
+
+    def value_ok(self, cx, a, r, S):
+        if is_oset(a.other):
+            return {"equal-iff-same-members": Z(r) == (S == okeys(cx, a.other, pre=True))}
+        return {"non-oset-is-unequal": r is False}
+
+    def value_of(self, cx, a, S):
+        return (S == okeys(cx, a.other)) if is_oset(a.other) else False
+
+
+@register
+class OsetLen(OsetQuery):
+    """__len__(): the cardinality of the member set"""
+
+    target = f"{UT}::oset.__len__"
+    variants = ("0",)
+
+    def value_ok(self, cx, a, r, S):
+        return {"len-is-cardinality": Z(r) == card(S), "len>=0": Z(r) >= 0}
+
+    def value_of(self, cx, a, S):
+        cx.assume(card_axioms(S))
+        return card(S)
+
+
+@register
+class OsetContains(OsetQuery):
+    """__contains__(x): membership"""
+
+    target = f"{UT}::oset.__contains__"
+    variants = ("0",)
+    param = "x"
+
+    def inputs(self, cx, case):
+        return {"self": new_oset(cx, "self"), "x": cx.Int("x"), "_cx": cx}
+
+    others = _no_others
+
+    def value_ok(self, cx, a, r, S):
+        return {"membership": Z(r) == sel(S, a.x)}
+
+    def value_of(self, cx, a, S):
+        return sel(S, a.x)
+
+
+for _c in (OsetEq, OsetLen, OsetContains):
+    OSET_METHODS[_c.target.split(".")[-1]] = _c.target
+
+
+@register
+class OsetFromDictPrivate(Base):
+    """oset._from_dict(d): a new oset that WRAPS d (no copy)"""
+
+    target = f"{UT}::oset._from_dict"
+    floor = 2
+
+    def inputs(self, cx, case):
+        return {"cls": OSET_CLASS, "d": DH(new_dict(cx, cx.Array("D", INT, BOOL))), "_cx": cx}
+
+    def ensures(self, a, r, cx, case):
+        if not is_oset(r):
+            return {"returns-oset": False}
+        return {"wraps-the-given-dict": cx.fields(r)["d"] is not None and cx.fields(r)["d"].oid == a.d.ref.oid,
+                "dict-untouched": cx.fields(a.d.ref)["keys"] == cx.pre(a.d.ref)["keys"]}
+
+    def apply(self, cx, a, node, case=None):
+        if not isinstance(a.d, DH):
+            raise Unsupported("_from_dict of a non-dict")
+        return cx.new_obj("oset", d=a.d.ref)
+
+
+@register
+class OsetFromDict(OsetFromDictPrivate):
+    """oset.from_dict(d): a new oset over a COPY of d"""
+
+    target = f"{UT}::oset.from_dict"
+
+    def ensures(self, a, r, cx, case):
+        if not is_oset(r):
+            return {"returns-oset": False}
+        nd = cx.fields(r)["d"]
+        return {"own-dict": nd is not None and nd.oid != a.d.ref.oid,
+                "same-members": nd is not None and cx.fields(nd)["keys"] == cx.pre(a.d.ref)["keys"],
+                "dict-untouched": cx.fields(a.d.ref)["keys"] == cx.pre(a.d.ref)["keys"]}
+
+    def apply(self, cx, a, node, case=None):
+        if not isinstance(a.d, DH):
+            raise Unsupported("from_dict of a non-dict")
+        return cx.new_obj("oset", d=new_dict(cx, cx.fields(a.d.ref)["keys"]))
